@@ -1,14 +1,27 @@
-"""C31 — tabular tap dependency uses the transformer's own row (DESIGN §4, TapTable.tla)."""
+"""C31 — tabular tap dependency uses the transformer's own row (DESIGN §4, TapTable.tla / TapTableDef.tla).
+
+Two model families, both enumerated by TLC and instantiated here:
+ * "w2"  three 2W transformers (TapTable.tla Init):   A = table, B = spec-chosen row entered directly;
+ * "w3"  a three-winding transformer W plus a second trafo3w O3 / a 2W transformer O2 that may share W's
+         characteristic id at a different step (TapTable.tla Init3): the table rows are filled from the sources
+         the spec assigns (TapTableDef.Src3), B is the reference the spec names (TapTableDef.RefW).
+TLC (TapTableObs.tla) compares A and B; Python only builds the networks and projects the results.
+"""
+import cmath
 import copy
+import math
+import os
 
 from ..common import Verdict, fx, pool_map, use_repo
 from ..obs import tlc_obs
-from ..tla import jsonable, run_tlc
+from ..tla import MachineryError, jsonable, run_tlc
 
+PROCS = int(os.environ.get("VERIF_PROCS", "16") or 16)
 _BASE = {}
 SIDES = {1: "hv", 2: "hv", 3: "lv"}
 
 
+# ---- family w2: three two-winding transformers ---------------------------------------------------------------
 def base_net():
     import pandapower as pp
     from ..templates import char_table, line
@@ -50,7 +63,7 @@ def solve(net):
         return False
 
 
-def observe(case):
+def observe_w2(case):
     from ..netstate import value_diff, value_snapshot
     cfg, eff = case["cfg"], case["eff"]
     a = copy.deepcopy(base_net())
@@ -78,49 +91,266 @@ def observe(case):
     pa = project(a, solve(a))
     changed = value_diff(s0, value_snapshot(a))
     pb = project(b, solve(b))
-    return {"cfg": cfg, "eff": eff, "a": pa, "b": pb, "changed": changed}
+    return {"fam": "w2", "cfg": cfg, "eff": eff, "a": pa, "b": pb, "changed": changed}
+
+
+# ---- family w3: three-winding transformer W, second trafo3w O3, 2W transformer O2 ------------------------------
+NEUTRAL = 1                      # tap_neutral of W, O3, O2;  model position p <-> tap_pos = p - 1  (TapTableDef: Neutral = 2)
+TYPE_STEP = {"Ratio": (1.5, 0.0), "Symmetrical": (1.2, 60.0), "Ideal": (0.0, 2.0)}   # (tap_step_percent, tap_step_degree) of W
+S3 = ("hv", "mv", "lv")
+VK3 = ["vk_hv_percent", "vk_mv_percent", "vk_lv_percent", "vkr_hv_percent", "vkr_mv_percent", "vkr_lv_percent"]
+
+
+def base_net3():
+    import pandapower as pp
+    if "net3" in _BASE:
+        return _BASE["net3"]
+    net = pp.create_empty_network()
+    b0 = pp.create_bus(net, 110.0)
+    b1 = pp.create_bus(net, 110.0)
+    pp.create_ext_grid(net, b0, vm_pu=1.02)
+    pp.create_line_from_parameters(net, b0, b1, 5.0, 0.06, 0.3, 9.0, 0.6)
+    tap = dict(tap_neutral=NEUTRAL, tap_min=-3, tap_max=5, tap_pos=NEUTRAL)
+    mv, lv = pp.create_bus(net, 20.0), pp.create_bus(net, 10.0)
+    pp.create_transformer3w_from_parameters(          # W  (trafo3w 0)
+        net, b1, mv, lv, vn_hv_kv=110., vn_mv_kv=20., vn_lv_kv=10., sn_hv_mva=40., sn_mv_mva=25., sn_lv_mva=15.,
+        vk_hv_percent=10.5, vk_mv_percent=7.0, vk_lv_percent=6.0, vkr_hv_percent=0.5, vkr_mv_percent=0.4,
+        vkr_lv_percent=0.45, pfe_kw=20., i0_percent=0.1, shift_mv_degree=0., shift_lv_degree=0., tap_side="hv",
+        tap_step_percent=1.5, tap_step_degree=0., tap_at_star_point=False, tap_changer_type="Ratio", **tap)
+    pp.create_load(net, mv, 12., 3.)
+    pp.create_load(net, lv, 6., 1.5)
+    mv2, lv2 = pp.create_bus(net, 20.0), pp.create_bus(net, 10.0)
+    pp.create_transformer3w_from_parameters(          # O3 (trafo3w 1): tap at the mv terminal
+        net, b1, mv2, lv2, vn_hv_kv=110., vn_mv_kv=21., vn_lv_kv=10.5, sn_hv_mva=31.5, sn_mv_mva=20., sn_lv_mva=12.,
+        vk_hv_percent=12.0, vk_mv_percent=8.0, vk_lv_percent=6.5, vkr_hv_percent=0.6, vkr_mv_percent=0.5,
+        vkr_lv_percent=0.55, pfe_kw=15., i0_percent=0.1, shift_mv_degree=0., shift_lv_degree=0., tap_side="mv",
+        tap_step_percent=1.25, tap_step_degree=0., tap_at_star_point=False, tap_changer_type="Ratio", **tap)
+    pp.create_load(net, mv2, 8., 2.)
+    pp.create_load(net, lv2, 4., 1.)
+    b2 = pp.create_bus(net, 20.0)
+    pp.create_transformer_from_parameters(            # O2 (trafo 0): tap at hv
+        net, b1, b2, sn_mva=25., vn_hv_kv=110., vn_lv_kv=20., vkr_percent=0.6, vk_percent=12.0, pfe_kw=14.,
+        i0_percent=0.1, shift_degree=0.0, tap_side="hv", tap_step_percent=1.0, tap_step_degree=0.,
+        tap_changer_type="Ratio", **tap)
+    pp.create_load(net, b2, 9., 2.)
+    for tb in ("trafo", "trafo3w"):
+        net[tb]["id_characteristic_table"] = net[tb]["id_characteristic_table"].astype("Int64")
+        net[tb]["tap_dependency_table"] = False
+    _BASE["net3"] = net
+    return net
+
+
+def tap_model(typ, pct, deg, d):
+    """(ratio, angle_deg) the non-tabular tap changer gives d steps away from neutral (TapTableDef, "w_own")."""
+    if typ == "Ideal":
+        return 1.0, deg * d
+    z = 1 + pct / 100.0 * d * cmath.exp(1j * math.radians(deg))
+    return abs(z), math.degrees(cmath.phase(z))
+
+
+def junk_row(cid, d):
+    r = {"voltage_ratio": 1.06 + 0.01 * d + 0.003 * cid, "angle_deg": 3.0 + 0.5 * d + 0.1 * cid}
+    v = 0.3 * d + 0.75 * cid
+    r.update(vk_percent=9.0 + v, vkr_percent=1.0 + v / 6, vk_hv_percent=13.5 + v, vk_mv_percent=9.5 + v, vk_lv_percent=8.5 + v,
+             vkr_hv_percent=0.8 + v / 6, vkr_mv_percent=0.7 + v / 6, vkr_lv_percent=0.75 + v / 6)
+    return r
+
+
+def table3(net, cfg, eff):
+    """trafo_characteristic_table: one row per eff.tab entry, numbers by the row's source (TapTableDef table rule)."""
+    import pandas as pd
+    w = net.trafo3w.loc[0]
+    rows = []
+    for e in eff["tab"]:
+        cid, step = int(e["id"]), int(e["pos"]) - 1
+        d = step - NEUTRAL
+        r = junk_row(cid, d)
+        if e["src"] == "w_own":
+            r["voltage_ratio"], r["angle_deg"] = tap_model(w.tap_changer_type, w.tap_step_percent, w.tap_step_degree, d)
+            for c in VK3:
+                r[c] = float(w[c])
+        elif e["src"] == "w_off":
+            r["voltage_ratio"], r["angle_deg"] = 1.03 + 0.01 * d + 0.002 * cid, 0.8 + 0.3 * d + 0.1 * cid
+            for k, c in enumerate(VK3):
+                r[c] = float(w[c]) + (0.9 + 0.2 * d if k < 3 else 0.1 + 0.02 * d)
+        elif e["src"] == "o_own":
+            if cfg["o"]["kind"] == "t3w":
+                o = net.trafo3w.loc[1]
+                cols = VK3
+            else:
+                o = net.trafo.loc[0]
+                cols = ["vk_percent", "vkr_percent"]
+            r["voltage_ratio"], r["angle_deg"] = tap_model(o.tap_changer_type, o.tap_step_percent, o.tap_step_degree, d)
+            for c in cols:
+                r[c] = float(o[c])
+        elif e["src"] != "junk":
+            raise MachineryError("unknown row source %r" % (e["src"],))
+        r.update(id_characteristic=cid, step=step)
+        rows.append(r)
+    return pd.DataFrame(rows)
+
+
+def project3(net, ok):
+    if not ok:
+        return {"conv": False, "vm": [], "va": [], "p3": [], "q3": [], "p2": [], "q2": []}
+    r3, r2 = net.res_trafo3w, net.res_trafo
+    return {"conv": True, "vm": [fx(x) for x in net.res_bus.vm_pu.values], "va": [fx(x) for x in net.res_bus.va_degree.values],
+            "p3": [fx(x) for s in S3 for x in r3["p_%s_mw" % s].values], "q3": [fx(x) for s in S3 for x in r3["q_%s_mvar" % s].values],
+            "p2": [fx(x) for s in ("hv", "lv") for x in r2["p_%s_mw" % s].values],
+            "q2": [fx(x) for s in ("hv", "lv") for x in r2["q_%s_mvar" % s].values]}
+
+
+def observe_w3(case):
+    from ..netstate import value_diff, value_snapshot
+    cfg, eff = case["cfg"], case["eff"]
+    w, o = cfg["w"], cfg["o"]
+    a = copy.deepcopy(base_net3())
+    t3 = a.trafo3w
+    t3.at[0, "tap_side"] = w["side"]
+    t3.at[0, "tap_at_star_point"] = bool(w["star"])
+    t3.at[0, "tap_changer_type"] = w["type"]
+    t3.at[0, "tap_step_percent"], t3.at[0, "tap_step_degree"] = TYPE_STEP[w["type"]]
+    t3.at[0, "tap_pos"] = w["pos"] - 1
+    t3.at[0, "tap_dependency_table"] = bool(w["dep"])
+    t3.at[0, "id_characteristic_table"] = w["id"]
+    # the other transformers: same characteristic id as W; the one the configuration selects is table dependent at o.pos,
+    # the others use their own tap changer one step above neutral
+    for tb, kind in ((a.trafo3w, "t3w"), (a.trafo, "t2w")):
+        k = 1 if kind == "t3w" else 0
+        tb.at[k, "id_characteristic_table"] = w["id"]
+        sel = o["kind"] == kind
+        tb.at[k, "tap_dependency_table"] = sel
+        tb.at[k, "tap_pos"] = (o["pos"] - 1) if sel else NEUTRAL + 1
+    a["trafo_characteristic_table"] = tab = table3(a, cfg, eff)
+    b = copy.deepcopy(a)
+    b.trafo3w["tap_dependency_table"] = False
+    b.trafo["tap_dependency_table"] = False
+    if eff["ref"] == "entered":          # W's row entered directly (terminal tap only, TapTableDef member "off")
+        row = tab[(tab.id_characteristic == w["id"]) & (tab.step == w["pos"] - 1)].iloc[0]
+        ratio, ang = float(row.voltage_ratio), float(row.angle_deg)
+        if w["side"] == "hv":
+            z = ratio * cmath.exp(1j * math.radians(ang)) - 1
+            b.trafo3w.at[0, "tap_changer_type"] = "Ratio"
+            b.trafo3w.at[0, "tap_pos"] = NEUTRAL + 1
+            b.trafo3w.at[0, "tap_step_percent"] = 100 * abs(z)
+            b.trafo3w.at[0, "tap_step_degree"] = math.degrees(cmath.phase(z)) if abs(z) > 0 else 0.0
+        else:
+            b.trafo3w.at[0, "tap_pos"] = NEUTRAL
+            b.trafo3w.at[0, "vn_%s_kv" % w["side"]] = float(b.trafo3w.at[0, "vn_%s_kv" % w["side"]]) * ratio
+            b.trafo3w.at[0, "shift_%s_degree" % w["side"]] = float(b.trafo3w.at[0, "shift_%s_degree" % w["side"]]) - ang
+        for c in VK3:
+            b.trafo3w.at[0, c] = float(row[c])
+    elif eff["ref"] != "dep_off":
+        raise MachineryError("unknown reference kind %r" % (eff["ref"],))
+    rows = [{"id": int(r.id_characteristic), "pos": int(r.step) + 1, "ratio": fx(r.voltage_ratio), "angle": fx(r.angle_deg),
+             "vk": [fx(r.vk_hv_percent), fx(r.vk_mv_percent), fx(r.vk_lv_percent), fx(r.vk_percent)]} for r in tab.itertuples()]
+    s0 = value_snapshot(a)
+    pa = project3(a, solve(a))
+    changed = value_diff(s0, value_snapshot(a))
+    corrupt = os.environ.get("VERIF_C31_CORRUPT", "")       # binding self-test (development only): corrupt one observed field
+    if corrupt and pa["conv"] and w["dep"] and w["pos"] == 3 and o["kind"] == "t3w":
+        if corrupt == "vm":
+            pa["vm"][2] += 200
+        elif corrupt == "flow":
+            pa["q3"][0] += 2000
+        elif corrupt == "changed":
+            changed = changed + ["trafo3w.vk_hv_percent"]
+    pb = project3(b, solve(b))
+    return {"fam": "w3", "cfg": cfg, "eff": eff, "rows": rows, "a": pa, "b": pb, "changed": changed}
+
+
+def observe(case):
+    return observe_w3(case) if case.get("fam") == "w3" else observe_w2(case)
+
+
+# ---- driver -----------------------------------------------------------------------------------------------------
+def _model_runs(tier):
+    """Both model families, the two TLC jobs side by side."""
+    import shutil
+    import tempfile
+    from concurrent.futures import ThreadPoolExecutor
+    from ..tla import SPEC_DIR
+    wd = tempfile.mkdtemp(prefix="ppverif_c31_")
+    try:
+        for name in ("TapTable.cfg", "TapTable3W.cfg"):
+            cfg = open(os.path.join(SPEC_DIR, name)).read()
+            if tier == "thorough":
+                cfg = cfg.replace("Positions = {1, 2, 3}", "Positions = {0, 1, 2, 3, 4}")
+            open(os.path.join(wd, name), "w").write(cfg)
+        w = max(2, min(8, PROCS // 2))
+        with ThreadPoolExecutor(2) as ex:
+            f2 = ex.submit(run_tlc, "TapTable", "TapTable.cfg", workdir=os.path.join(wd, "w2"), dump=True, workers=w,
+                           extra_files=[os.path.join(wd, "TapTable.cfg")])
+            f3 = ex.submit(run_tlc, "TapTable", "TapTable3W.cfg", workdir=os.path.join(wd, "w3"), dump=True, workers=w,
+                           extra_files=[os.path.join(wd, "TapTable3W.cfg")])
+            return f2.result(), f3.result()
+    finally:
+        shutil.rmtree(wd, ignore_errors=True)
+
+
+def _key(name, c):
+    if c["fam"] == "w3":
+        w, o = c["cfg"]["w"], c["cfg"]["o"]
+        return "C31|%s|3w_%s_%s_%s" % (name, c["cfg"]["member"], "star_point" if w["star"] else "terminal",
+                                       "alone" if o["kind"] == "none" else "shared_id_with_" + o["kind"])
+    dep = [t for t in (0, 1, 2) if c["cfg"][t]["dep"]]
+    shared = any(c["cfg"][x]["id"] == c["cfg"][y]["id"] and c["cfg"][x]["pos"] != c["cfg"][y]["pos"]
+                 for x in dep for y in dep if x < y)
+    return "C31|%s|%s" % (name, "shared_id_different_steps" if shared else "no_shared_id_conflict")
 
 
 def run(tier, seed, replay=None):
     v = Verdict("C31", tier, seed, "model_checking")
     use_repo()
     if replay:
-        todo = [{"cfg": replay["case"]["cfg"], "eff": replay["case"]["eff"]}]
+        rc = replay["case"]
+        todo = [{"fam": rc.get("fam", "w2"), "cfg": rc["cfg"], "eff": rc["eff"]}]
         states = trans = 1
     else:
-        import os, re, shutil, tempfile
-        from ..tla import SPEC_DIR
-        wd = tempfile.mkdtemp(prefix="ppverif_c31_")
-        try:
-            cfg = open(os.path.join(SPEC_DIR, "TapTable.cfg")).read()
-            if tier == "thorough":
-                cfg = cfg.replace("Positions = {1, 2, 3}", "Positions = {0, 1, 2, 3, 4}")
-            open(os.path.join(wd, "TapTable.cfg"), "w").write(cfg)
-            r = run_tlc("TapTable", "TapTable.cfg", workdir=wd, dump=True)
-        finally:
-            shutil.rmtree(wd, ignore_errors=True)
-        for name, st, raw in r.violations:
-            v.divergence("model-level: %s" % name, None)
-        todo = [jsonable({"cfg": s["cfg"], "eff": s["eff"]}) for s in r.dump]
-        states, trans = r.distinct, r.transitions
-    cases = pool_map(observe, todo)
-    fails, st = tlc_obs("TapTableObs", "TapTableObs.cfg", cases)
+        r2, r3 = _model_runs(tier)
+        for r in (r2, r3):
+            for name, st, raw in r.violations:
+                v.divergence("model-level: %s" % name, None)
+        todo = [jsonable({"fam": "w2", "cfg": s["cfg"], "eff": s["eff"]}) for s in r2.dump]
+        todo += [jsonable({"fam": "w3", "cfg": s["cfg"], "eff": s["eff"]}) for s in r3.dump]
+        states, trans = r2.distinct + r3.distinct, r2.transitions + r3.transitions
+    cases = pool_map(observe, todo, procs=PROCS)
+    fails, st = tlc_obs("TapTableObs", "TapTableObs.cfg", cases, workers=PROCS)
     for name, i in fails:
         c = cases[i]
-        dep = [t for t in (0, 1, 2) if c["cfg"][t]["dep"]]
-        shared = any(c["cfg"][x]["id"] == c["cfg"][y]["id"] and c["cfg"][x]["pos"] != c["cfg"][y]["pos"]
-                     for x in dep for y in dep if x < y)
-        key = "C31|%s|%s" % (name, "shared_id_different_steps" if shared else "no_shared_id_conflict")
-        v.violation(key, "%s: cfg=%s" % (name, c["cfg"]), c)
-    nontriv = sum(1 for c in cases if sum(c["cfg"][t]["dep"] for t in (0, 1, 2)) >= 2)
+        if name in ("C31_3W_CaseFromSpec", "C31_3W_RowsDistinct"):
+            raise MachineryError("%s failed: the harness did not build the case the spec describes: %s" % (name, c["cfg"]))
+        v.violation(_key(name, c), "%s: cfg=%s" % (name, c["cfg"]), c)
+    c2 = [c for c in cases if c["fam"] == "w2"]
+    c3 = [c for c in cases if c["fam"] == "w3"]
+    both3 = [c for c in c3 if c["a"]["conv"] and c["b"]["conv"]]
+    nontriv = sum(1 for c in c2 if sum(c["cfg"][t]["dep"] for t in (0, 1, 2)) >= 2)
+    nontriv3 = sum(1 for c in both3 if c["cfg"]["w"]["dep"] and (c["cfg"]["w"]["pos"] != 2 or c["cfg"]["member"] == "off"
+                                                                   or c["cfg"]["o"]["kind"] != "none"))
     v.coverage = {
         "states": states + st["states"], "transitions": trans + st["generated"],
         "traces_validated_against_impl": len(cases), "exhaustive": True, "evaluations": len(cases),
-        "distinct_nontrivial": nontriv,
-        "rule": "every assignment of (tap_dependency_table, characteristic id, tap_pos) to three 2W transformers (tap sides "
+        "distinct_nontrivial": nontriv + nontriv3,
+        "rule": "w2: every assignment of (tap_dependency_table, characteristic id, tap_pos) to three 2W transformers (tap sides "
                 "hv, hv, lv); net with the table vs net with the spec-chosen row entered directly; non-trivial = >=2 "
-                "table-dependent transformers",
-        "samples": [cases[k] for k in range(3, len(cases), max(1, len(cases) // 3))][:3],
+                "table-dependent transformers.  w3: every (dep, id, tap_pos, tap_side, tap_at_star_point, tap_changer_type) of a "
+                "trafo3w x (no other / second trafo3w / 2W transformer sharing the id at a different step) x oracle member "
+                "(lin: own row = own tap model, B = same net without table; off: own row off the tap model, B = row entered "
+                "directly, terminal taps); non-trivial = both nets converged, W table dependent and (off the neutral step, or "
+                "off-model row, or id shared)",
+        "w2_cases": len(c2), "w3_cases": len(c3), "w3_both_converged": len(both3),
+        "w3_not_converged": len(c3) - len(both3),
+        "w3_lin_members": sum(1 for c in c3 if c["cfg"]["member"] == "lin"),
+        "w3_off_members": sum(1 for c in c3 if c["cfg"]["member"] == "off"),
+        "w3_star_point_dependent": sum(1 for c in both3 if c["cfg"]["w"]["star"] and c["cfg"]["w"]["dep"]),
+        "w3_off_at_neutral": sum(1 for c in both3 if c["cfg"]["member"] == "off" and c["cfg"]["w"]["pos"] == 2),
+        "w3_shared_with_t3w": sum(1 for c in both3 if c["cfg"]["o"]["kind"] == "t3w" and c["cfg"]["w"]["dep"]),
+        "w3_shared_with_t2w": sum(1 for c in both3 if c["cfg"]["o"]["kind"] == "t2w" and c["cfg"]["w"]["dep"]),
+        "samples": ([c2[k] for k in range(3, len(c2), max(1, len(c2) // 2))][:2] +
+                    [c3[k] for k in range(7, len(c3), max(1, len(c3) // 2))][:2]),
     }
-    v.assumptions = ["2W transformers only (trafo3w table columns not enumerated)", "row values distinct per (id, step) by construction"]
+    v.assumptions = ["row values distinct per (id, step) by construction (w3: checked by TLC, C31_3W_RowsDistinct)",
+                     "w3: an ideal phase shifter at the star point is not enumerated (the non-tabular reference is not meaningful "
+                     "there); off-model rows only with the tap at a terminal",
+                     "w3: tap2 / a second tap changer and tap_dependency_table on more than two transformers at once not enumerated"]
     return v.finish()
